@@ -2,6 +2,14 @@ import sys, os
 sys.path.insert(0, os.path.dirname(os.path.dirname(os.path.abspath(__file__))))
 from checks import *
 
+# three leaf symbols: A over 2 states: a->p0, b->p0, c->p0, g(p0,p0)->p1; B over 3 states: a->r0, a->r1, b->r1, b->r2, c->r2,
+# g(r0,r0)->r0, g(r0,r1)->r0, g(r1,r1)->r0, g(r2,r2)->r0: a child of A is covered by three rules of B only jointly (the
+# set-inclusion caches of the downward algorithms are consulted with 2-element subsets of an established 3-element set)
+JOINT3 = {'AMASK': '0x%xul' % sum(1 << i for i in (0, 2, 4, 10)), 'BMASK': '0x%xul' % sum(1 << i for i in (0, 1, 4, 5, 8, 9, 10, 13, 17))}
+def c01_joint(sels): return [AB(2, 3, [0, 0, 0, 2], SEL=s, **dict(JOINT3, **({'_time': 1500} if s & 1 else {}))) for s in sels]   # with simulation: ~250 s each                 # 18 bits
+# the selections without simulation called on the automata as built (no caller-side sanitisation)
+def c01_direct(shapes): return [AB(na, nb, ranks, SEL=s, DIRECT=1) for (na, nb, ranks) in shapes for s in (0, 2, 4, 6)]
+
 CHECKS = {
  'C01': {
   'level': 'model_checking',
@@ -11,8 +19,8 @@ CHECKS = {
   'outside': 'more than 2 states per operand, rank > 2, more than 3 symbols, simulation relations other than the one the library computes',
   'harnesses': [
     {'name': 'incl', 'src': 'harness/C01/incl.cc', 'tus': TREE_INCL,
-     'configs': {'quick': c01_configs([(1, 1, [0, 0, 1]), (2, 1, [0, 1]), (1, 2, [0, 1]), (2, 2, [0, 1]), (2, 1, [0, 2]), (1, 2, [0, 2])]) + c01_tri((0, 2, 4, 6)),
-                 'thorough': c01_configs([(1, 1, [0, 0, 1]), (2, 1, [0, 1]), (1, 2, [0, 1]), (2, 2, [0, 1]), (2, 1, [0, 2]), (1, 2, [0, 2]), (2, 2, [0, 0, 1])], heavy=True) + c01_tri(range(8), _heavy=1, _mem_gb=30, _time=2500) + c01_tri((0, 2, 4, 6), both=False, _heavy=1, _mem_gb=30, _time=2500)},
+     'configs': {'quick': c01_configs([(1, 1, [0, 0, 1]), (2, 1, [0, 1]), (1, 2, [0, 1]), (2, 2, [0, 1]), (2, 1, [0, 2]), (1, 2, [0, 2])]) + c01_tri((0, 2, 4, 6)) + c01_joint((2, 4, 6)) + c01_direct([(2, 1, [0, 1]), (1, 2, [0, 2])]),
+                 'thorough': c01_configs([(1, 1, [0, 0, 1]), (2, 1, [0, 1]), (1, 2, [0, 1]), (2, 2, [0, 1]), (2, 1, [0, 2]), (1, 2, [0, 2]), (2, 2, [0, 0, 1])], heavy=True) + c01_tri(range(8), _heavy=1, _mem_gb=30, _time=2500) + c01_tri((0, 2, 4, 6), both=False, _heavy=1, _mem_gb=30, _time=2500) + c01_joint(range(8)) + c01_direct([(2, 1, [0, 1]), (1, 2, [0, 2]), (2, 2, [0, 1]), (2, 1, [0, 2])])},
      'selftest_config': AB(1, 1, [0, 0, 1], SEL=2), 'selftests': ['VS_SELFTEST_1']},
   ],
  }
